@@ -11,10 +11,10 @@ NOTE = ("Trusted: go/packages+go/ssa v0.29.0, the engine's SSA semantics (fork o
 claimed = {
  "C07": dict(text="Truth table by symbolic execution of the real ValidateRequest: per-scheme authentication verdicts, option flags and part presence are symbolic/forked; err==nil is compared on every path with the reference formula (OR over requirements of AND over schemes, operation list before document list; effective parameters = operation-level plus non-overridden path-level; body unless excluded), plus the callback protocol and the multi-error member count.", ref="DESIGN.md §6 C07"),
  "C08": dict(text="Symbolic status code (every value 0..999; decimal digits by bit-vector arithmetic so the response-map lookups fork on them), every subset of {200,404,2XX,4XX,default}; the definition used by the real ValidateResponse is identified through the header it demands and compared with a reference selection; header/body/content-type verdicts and body re-readability are asserted per path.", ref="DESIGN.md §6 C08"),
- "C06": dict(text="Four kernels on the real code: Content.Get against a reference precedence for every Content-Type text within the bound and every subset of declared keys; ValidateRequestBody dispatch (required/empty/undeclared/decoded verdict); request-side readOnly/writeOnly/required rules with symbolic option; urlencoded form decoding round trip on symbolic field texts.", ref="DESIGN.md §6 C06"),
+ "C06": dict(text="Six kernels on the real code (multipart/JSON byte decoding of symbolic text is not applicable; concrete multipart text is interpreted in C15): media type keys with parameters; read-only defaults; Content.Get against a reference precedence for every Content-Type text within the bound and every subset of declared keys; ValidateRequestBody dispatch (required/empty/undeclared/decoded verdict); request-side readOnly/writeOnly/required rules with symbolic option; urlencoded form decoding round trip on symbolic field texts.", ref="DESIGN.md §6 C06"),
  "C14": dict(text="The real Validator.Middleware and both response wrappers are executed against a harness router, a client-side writer implementing net/http's contract, and a handler performing every call sequence up to the bound (symbolic body bytes); handler-invoked iff route found and request valid, error callback codes, and what reaches the client in strict / non-strict mode are asserted on every path; panics (e.g. invalid WriteHeader) are violations.", ref="DESIGN.md §6 C14"),
  "C13": dict(text="Body bookkeeping: the real ValidateRequest on a one-shot body stream of symbolic bytes with every GetBody behaviour and an authentication callback that reads part of the body; 'reading Request.Body to EOF afterwards yields the original bytes' is asserted on every path. Default injection: the real visitJSONObject/visitXOFOperations with symbolic defaults and member presence; exactly-the-default / nothing-else-changed / once-only / idempotence / non-matching-branch assertions; parameter defaults re-decoded from the forwarded request.", ref="DESIGN.md §6 C13"),
- "C09": dict(text="Legacy router only (gorilla/mux matching is regexp execution: not applicable): the real NewRouter (incl. T.Validate), FindRoute and the pathpattern tree are executed for template families with shared prefixes, literal/templated siblings and trailing-slash variants against every request path within the bound (symbolic bytes) and declared/undeclared methods; soundness, completeness, literal priority and RouteError on no match are asserted against a reference template matcher.", ref="DESIGN.md §6 C09"),
+ "C09": dict(text="Both routers. gorilla/mux-based: gorilla/mux itself is interpreted on concrete text (request path bytes, host, scheme, method chosen by the explorer), servers none / relative / absolute / with a base-path variable, against a reference matcher; plus Paths.InMatchingOrder as a unit. Legacy: the real NewRouter (incl. T.Validate), FindRoute and the pathpattern tree are executed for template families with shared prefixes, literal/templated siblings and trailing-slash variants against every request path within the bound (symbolic bytes) and declared/undeclared methods; soundness, completeness, literal priority and RouteError on no match are asserted against a reference template matcher.", ref="DESIGN.md §6 C09"),
  "C17": dict(text="The real converters on source objects whose scalar fields are all symbolic (every float64/uint64/bool, symbolic name bytes): field-by-field equalities at the v3 places, reference prefixes, and the v2 -> v3 -> v2 round trip are decided for all values at once (the converters are straight-line copies, so each equality is one query); whole documents of the convertible fragment go through the real ToV3 (incl. the loader's ResolveRefsIn), the real Validate and FromV3.", ref="DESIGN.md §6 C17"),
  "C11": dict(text="The real loader (all ten resolvers, resolveRefPath/resolvePath/resolveComponent, loadSingleElementFromURI, the raw re-read fallback) with every read routed through a recording ReadFromURIFunc. Harness 1: the reference text is symbolic (every 1-4 byte string over {#,/,.,:,a,j}; net/url.Parse interpreted on symbolic bytes) at each resolver position, switch off: 'a location other than the root is read' must be unreachable. Harness 2 (selector-symbolic, concrete per path): 14 positions x 15 spellings x 3 entry points x both switch settings through the JSON contract model, reads compared with the RFC 3986 resolution against the containing document.", ref="DESIGN.md §6 C11"),
  "C02": dict(text="Selector-symbolic (weak fit, said so): the explorer forks over reference layouts (9 kinds x 11 candidate spellings/targets x 2 entry points; cycles; 16 nested positions); each path runs the real loader end to end on an in-memory file table through the JSON contract model (all repository UnmarshalJSON methods interpreted) and compares Value (as JSON) and RefPath with the harness's own RFC-3986/JSON-pointer resolver; dangling and wrong-kind targets must fail. Little scalar content, so few solver queries: the value is systematic coverage of the ten resolver routines with an independent oracle.", ref="DESIGN.md §6 C02"),
